@@ -251,28 +251,33 @@ def resetSignalSpec (S : Setup α) : BeamSpec α :=
     else (0.0 : α) * Cfg.deg
   { S.sig with phi := (0.0 : α) * Cfg.deg, theta := θ }
 
-/-- `SPDC::try_as_optimum`: signal reset to collinear, optimum crystal angle (no poling) or optimum
-poling period (poling on, window kept), optimum idler for the NEW poling with the idler waist kept,
-both optimal waist positions.  The `unwrap()` of the optimum idler inside the two optimisers is the
-panic for `λs ≤ λp`. -/
-def asOptimum (S : Setup α) : Outcome (Setup α) :=
-  let S1 : Setup α := { S with sig := resetSignalSpec S }
+/-- first statement of `try_as_optimum`: the signal is reset to collinear -/
+def optReset (S : Setup α) : Setup α := { S with sig := resetSignalSpec S }
+
+/-- second step: optimum crystal angle (no poling) or optimum poling period (poling on, window
+kept).  The `unwrap()` of the optimum idler inside the two optimisers is the panic for `λs ≤ λp`. -/
+def optDecide (S1 : Setup α) : Outcome (Setup α) :=
   let s := signalBeam S1
   let p := pumpBeam S1
-  let decide2 : Outcome (Setup α) :=
-    match S1.poling with
-    | .off =>
-      if Beam.vacuumWavelength s ≤ Beam.vacuumWavelength p then .panic "optimum_theta:unwrap"
-      else (optimumThetaB S1 s p).map fun θ => { S1 with cTheta := θ }
-    | .on _ apod =>
-      if Beam.vacuumWavelength s ≤ Beam.vacuumWavelength p then .panic "optimum_poling_period:unwrap"
-      else (optimumPolingPeriodB S1 s p).map fun per => { S1 with poling := .on per apod }
-  decide2.bind fun S2 =>
-    let S3 : Setup α := { S2 with idlerAuto := true }
-    (idlerBeam S3).map fun i =>
-      { S3 with
-        sig := { S3.sig with z0 := optimalWaistPosition S3 (signalBeam S3) }
-        idl := { S3.idl with z0 := optimalWaistPosition S3 i } }
+  match S1.poling with
+  | .off =>
+    if Beam.vacuumWavelength s ≤ Beam.vacuumWavelength p then .panic "optimum_theta:unwrap"
+    else (optimumThetaB S1 s p).map fun θ => { S1 with cTheta := θ }
+  | .on _ apod =>
+    if Beam.vacuumWavelength s ≤ Beam.vacuumWavelength p then .panic "optimum_poling_period:unwrap"
+    else (optimumPolingPeriodB S1 s p).map fun per => { S1 with poling := .on per apod }
+
+/-- last step: optimum idler for the NEW crystal / poling with the idler waist kept, both optimal
+waist positions -/
+def optFinish (S2 : Setup α) : Outcome (Setup α) :=
+  let S3 : Setup α := { S2 with idlerAuto := true }
+  (idlerBeam S3).map fun i =>
+    { S3 with
+      sig := { S3.sig with z0 := optimalWaistPosition S3 (signalBeam S3) }
+      idl := { S3.idl with z0 := optimalWaistPosition S3 i } }
+
+/-- `SPDC::try_as_optimum` -/
+def asOptimum (S : Setup α) : Outcome (Setup α) := (optDecide (optReset S)).bind optFinish
 
 end
 end Spdc.Compose
